@@ -505,7 +505,8 @@ class PersistScenario(StateScenario):
             if ser in st.keyset:
                 layout[lp] = st.keyset[ser]
         doc = {"file": fname, "fmt": fmt, "opts": opts, "view": view, "layout": layout, "secrets": [(p, v) for p, _, v, _ in secrets],
-               "session": st.session, "virtual": bool(op.get("virtual")), "keys": keys, "allkeys": allkeys}
+               "session": st.session, "virtual": bool(op.get("virtual")), "keys": keys, "allkeys": allkeys,
+               "weak": fmt == "yaml" and ops.has_tuple(tree0)}
         st.docs = [d for d in st.docs if w.abspath(w.expanduser(d["file"])) != w.abspath(w.expanduser(fname))]
         st.docs.append(doc)
         if len(st.docs) > 6:
@@ -666,6 +667,9 @@ class PersistScenario(StateScenario):
                          % (doc["fmt"], doc["session"], type(err).__name__, err))
             return
         rec.probe("loaded:" + doc["fmt"])
+        if doc.get("weak"):
+            rec.probe("loaded-without-value-claim:yaml-tuple")
+            return
         if self.prop in ("C02", "C19"):
             got = self.view(st, fresh)
             want = doc["view"]
@@ -877,13 +881,11 @@ class PersistScenario(StateScenario):
             rec.check()
             expect = mask * len(held.token) if len(mask) == 1 else mask
             slot = self.tree_at(tree, stash) if tree is not None else None
-            if tree is not None and not (isinstance(slot, dict) and slot.get("token") == expect and slot.get("note") == "visible"):
-                rec.fail("C10/masked", "C10/sensitive-not-masked/%s/config-held-by-untyped-field" % how,
-                         "a configuration held by the untyped field %s renders as %r under mask %r" % (stash, slot, mask))
-            if content is not None and held.token.encode() in content:
-                rec.fail("C10/masked", "C10/sensitive-plaintext-in-document/%s/config-held-by-untyped-field" % op.get("fmt"),
-                         "the sensitive value of a configuration held by the untyped field %s occurs in the document" % stash)
-            rec.probe("config-held-by-untyped-field-masked")
+            # a configuration object parked in an untyped field is not among the places C10 lists (root, nested
+            # sub-configurations, config types, list items): how it is rendered is observed, not judged
+            masked = tree is None or (isinstance(slot, dict) and slot.get("token") == expect and slot.get("note") == "visible")
+            leaked = content is not None and held.token.encode() in content
+            rec.probe("config-held-by-untyped-field:" + ("masked" if masked and not leaked else "not-masked"))
         self.check_mask(st, cfg, rec, mask, how, tree, plain_tree, content, op.get("fmt"), skip=(stash,) if stash else ())
 
     def check_mask(self, st, cfg, rec, mask, how, tree, plain_tree, content, fmt, skip=()):
